@@ -981,6 +981,8 @@ class JSExec(GoExec, SpecMixin, CallsMixin):
             if name == '$imul':
                 self.assumed.add('Math.imul(a, b) is the int32 congruent to a*b modulo 2^32 (ECMA-262); the $imul fallback is verified separately')
                 return self.math(st, 'imul', args, line)
+            if name == '$panic':
+                raise PanicEx('panic')           # panic(v): unwinds (its argument is not evaluated here)
             if name == '$throwRuntimeError':
                 msg = self.ev(st, args[0])
                 raise PanicEx(msg.lit.decode() if isinstance(msg, StrV) and msg.lit is not None else 'runtime error')
@@ -1571,14 +1573,27 @@ class JSExec(GoExec, SpecMixin, CallsMixin):
                         state.env[pn] = self.ev(state, dexpr)
                     else:
                         state.env[pn] = v.val
-            if body['type'] == 'BlockStatement':
-                self.block(state, body['body'])
-                return None
-            raise ReturnEx([self.ev(state, body)])
+            try:
+                if body['type'] == 'BlockStatement':
+                    self.block(state, body['body'])
+                    return None
+                raise ReturnEx([self.ev(state, body)])
+            except Unsupported as ex:
+                if not c.get('abstract_rest'):
+                    raise
+                # `abstract_rest`: a path that reaches a statement outside J0 ends there; what follows is not modelled.  Only
+                # one-directional clauses (`throws_when`) are checked on such a path, and the abstraction is listed.
+                self.assumed.add('js %s: the rest of a path is abstracted where it leaves the JavaScript subset (%s)' % (c.key, str(ex)[:120]))
+                raise ReturnEx(['$abstract'])
         exits = self.run_paths(st, run)
         n = 0
         for (how, state, info) in exits:
             self.trace = ['exit', n]; n += 1
+            if how == 'return' and info == ['$abstract']:
+                eenv = SpecEnv(entry, self.spec_binds(entry), entry)
+                for i, cl in enumerate(c.get('throws_when')):
+                    self.oblige(state, 'abstracted-path-only-if-not-throws_when#%d' % (i + 1), z3.Not(self.sev_bool(eenv, cl.expr)), src=cl.line)
+                continue
             if how in ('end', 'return'):
                 vals = info if how == 'return' else []
                 self.check_js_return(state, entry, c, vals)
@@ -1604,12 +1619,17 @@ class JSExec(GoExec, SpecMixin, CallsMixin):
         if tcs:
             eenv = SpecEnv(entry, self.spec_binds(entry), entry)
             self.oblige(state, 'returns-only-if-not-throws_if', z3.Not(z3.Or([self.sev_bool(eenv, cl.expr) for cl in tcs])))
+        for i, cl in enumerate(c.get('throws_when')):       # one direction: when the condition holds on entry the function does not return
+            eenv = SpecEnv(entry, self.spec_binds(entry), entry)
+            self.oblige(state, 'returns-only-if-not-throws_when#%d' % (i + 1), z3.Not(self.sev_bool(eenv, cl.expr)), src=cl.line)
 
     def check_js_throw(self, state, entry, c, info):
         tcs = c.get('throws_if')
         eenv = SpecEnv(entry, self.spec_binds(entry), entry)
         if tcs:
             self.oblige(state, 'throw-allowed(%s)' % info, z3.Or([self.sev_bool(eenv, cl.expr) for cl in tcs]))
+        elif c.get('throws_when'):
+            pass          # (`throws_when` is one-directional: it says nothing about other throws)
         else:
             self.oblige(state, 'no-throw(%s)' % info, z3.BoolVal(False))
 
